@@ -380,7 +380,7 @@ def step (line : String) : String :=
       | .ok (st, nodes, d0), .ok y =>
         let want := (st.withStatic false, nodes, d0.unfS (markedByBoth st d0))
         let rel := frontFp want == frontFp y
-        let oks := frontOKSb st nodes d0
+        let oks := frontOKSb st nodes d0 && frontUniqb nodes d0
         if rel && oks then "frel related oks" else s!"frel FAILS related={rel} oks={oks}"
       | .ok _, .error e => s!"frel DIFFERENT ok / {e.headD "?"}"
       | .error e, .ok _ => s!"frel DIFFERENT {e.headD "?"} / ok"
